@@ -115,9 +115,16 @@ def run_case(method, t0, tf, dt, events, dense, tol=1e-9, omega=1.0):
     spy = Spy()
     ode = de.OdeSystem(harmonic_w(omega), y0=np.array([1.0, 0.0]), t=(t0, tf), dt=dt, dense_output=dense, rtol=tol, atol=tol * 1e-2)
     ode.set_method(method)
+    steps = [0]
+
+    def budget(o):
+        # a run that needs more than 50 000 recorded steps for a span of a few periods is not terminating
+        steps[0] += 1
+        if steps[0] > 50000:
+            raise RuntimeError("step budget exceeded: the integration does not terminate")
     with spy:
         try:
-            ode.integrate(events=events)
+            ode.integrate(events=events, callback=[budget])
             exc = None
         except Exception as e:
             exc = e
